@@ -722,23 +722,41 @@ func ruleBroadcastShape(r *Run) {
 		}
 		r.Check("C3", fn.Name+":cases", deliver >= 1 && skip >= 1, fn.Body.Pos(), "Broadcast has a delivering and a sender-skipping iteration")
 	}
-	// BroadcastTo
+	// BroadcastTo: two equivalent shapes — (A) range over GetParticipantsByIDs(ids), (B) range over
+	// the ids with a lookup in the session's own participant map. Either way the delivery happens
+	// under the participant lock (see delivers-under-lock below).
 	if fn := r.P.Funcs[m.BroadcastTo]; fn != nil {
 		paths := r.Paths(fn)
 		r.Analysed(fn, len(paths))
-		over := "recv.call:Session.GetParticipantsByIDs(param:#2)"
+		overA := "recv.call:Session.GetParticipantsByIDs(param:#2)"
 		deliver := 0
 		for pi := range paths {
 			path := &paths[pi]
 			r.at(path)
 			r.loopsComplete("C3", fn, path)
+			enc := 0
+			for _, ev := range path.Events {
+				if ev.Kind == EvCall && ev.Callee == fromProto {
+					enc++
+					r.CheckT("C3", fn.Name+":encode-arg", r.P.Canon(fn, ev.Call.Args[0]) == "param:#1" && !ev.Loop, ev.Pos, path, "the message relayed is the one handed in, encoded once outside the loop")
+				}
+			}
+			r.CheckT("C3", fn.Name+":encode-once", enc == 1, fn.Body.Pos(), path, "the message is encoded exactly once (%d)", enc)
 			for i, ev := range path.Events {
 				if ev.Kind != EvGuard || ev.GKind != GRange {
 					continue
 				}
 				rs := ev.Stmt.(*ast.RangeStmt)
-				r.CheckT("C3", fn.Name+":range", r.P.Canon(fn, rs.X) == over, ev.Pos, path, "BroadcastTo resolves the named ids inside its own session (range over %s)", r.P.Canon(fn, rs.X))
-				if !ev.Val {
+				over := r.P.Canon(fn, rs.X)
+				member := ""
+				switch over {
+				case overA:
+					member = "rangeval(" + overA + ")"
+				case "param:#2":
+					member = "recv.participants[rangeval(param:#2)]"
+				}
+				r.CheckT("C3", fn.Name+":range", member != "", ev.Pos, path, "BroadcastTo resolves the named ids inside its own session (range over %s)", over)
+				if !ev.Val || member == "" {
 					continue
 				}
 				end := len(path.Events)
@@ -748,16 +766,21 @@ func ruleBroadcastShape(r *Run) {
 						break
 					}
 				}
-				isSender, dup := "", ""
+				isSender, dup, resolved := "", "", ""
+				if over == overA {
+					resolved = "hit" // GetParticipantsByIDs returns members only (J6 below)
+				}
 				sends, marks := 0, 0
 				for j := i + 1; j < end; j++ {
 					pe := path.Events[j]
 					if pe.Kind == EvGuard {
 						g := r.Classify(path, j)
 						switch {
-						case strings.HasPrefix(g.Subject, "eq:") && strings.Contains(g.Subject, "param:#0"):
+						case over == "param:#2" && g.Subject == "maplookup:"+member:
+							resolved = g.Outcome
+						case strings.HasPrefix(g.Subject, "eq:") && strings.Contains(g.Subject, "param:#0") && strings.Contains(g.Subject, member):
 							isSender = g.Outcome
-						case strings.HasPrefix(g.Subject, "maplookup:") && strings.HasSuffix(g.Subject, "[rangeval("+over+").ID]"):
+						case strings.HasPrefix(g.Subject, "maplookup:") && strings.HasSuffix(g.Subject, "["+member+".ID]"):
 							dup = g.Outcome
 						default:
 							r.CheckT("C3", fn.Name+":other-skip", false, pe.Pos, path, "delivery to a named member depends on %s", g)
@@ -765,32 +788,55 @@ func ruleBroadcastShape(r *Run) {
 					}
 					if pe.Kind == EvAssign {
 						for _, op := range r.mapOps(fn, &Path{Fn: fn, Events: []Event{pe}}) {
-							if op.Key == "rangeval("+over+").ID" {
+							if op.Key == member+".ID" {
 								marks++
 							}
 						}
 					}
 					if r.isSendMsgCall(pe) {
 						sends++
-						okRecv := r.P.Canon(fn, pe.Recv) == "rangeval("+over+").Responder"
+						okRecv := r.P.Canon(fn, pe.Recv) == member+".Responder"
 						okMsg := strings.HasPrefix(r.P.Canon(fn, pe.Call.Args[0]), "call:websocket.MsgFromProto(param:#1)")
-						r.CheckT("C3", fn.Name+":send", okRecv && okMsg, pe.Pos, path, "each named member is sent the encoded message through its own responder")
+						r.CheckT("C3", fn.Name+":send", okRecv && okMsg, pe.Pos, path, "each named member is sent the encoded message through its own responder (to %s)", r.P.Canon(fn, pe.Recv))
 					}
 				}
 				switch {
-				case isSender == "equal":
+				case resolved == "miss":
+					r.CheckT("J6", fn.Name+":unknown-id-ignored", sends == 0 && marks == 0, ev.Pos, path, "an id that names no member of this session is ignored")
+				case resolved == "hit" && isSender == "equal":
 					r.CheckT("C3", fn.Name+":skip-sender", sends == 0, ev.Pos, path, "the sender is skipped even when named")
-				case isSender == "differ" && dup == "hit":
+				case resolved == "hit" && isSender == "differ" && dup == "hit":
 					r.CheckT("C3", fn.Name+":skip-duplicate", sends == 0, ev.Pos, path, "a member named twice is served once")
-				case isSender == "differ" && dup == "miss":
+				case resolved == "hit" && isSender == "differ" && dup == "miss":
 					deliver++
 					r.CheckT("C3", fn.Name+":deliver", sends == 1 && marks == 1, ev.Pos, path, "a named member is sent the message once and marked as handled (sends %d, marks %d)", sends, marks)
 				default:
-					r.CheckT("C3", fn.Name+":iteration-shape", false, ev.Pos, path, "iteration is not decided by (is sender, already handled): %q %q", isSender, dup)
+					r.CheckT("C3", fn.Name+":iteration-shape", false, ev.Pos, path, "iteration is not decided by (names a member, is sender, already handled): %q %q %q", resolved, isSender, dup)
 				}
 			}
 		}
 		r.Check("C3", fn.Name+":delivers", deliver >= 1, fn.Body.Pos(), "BroadcastTo has a delivering iteration")
+	}
+	// both: every delivery happens while the session's participant lock is held, so that a departure
+	// (RemoveParticipant takes the lock exclusively) waits for deliveries in flight and a participant
+	// that has left is never served from an earlier snapshot of the membership
+	for _, f := range []*types.Func{m.Broadcast, m.BroadcastTo} {
+		fn := r.P.Funcs[f]
+		if fn == nil {
+			continue
+		}
+		paths := r.Paths(fn)
+		for pi := range paths {
+			path := &paths[pi]
+			r.at(path)
+			held := r.locksAlong(path, lockset{})
+			for i, pe := range path.Events {
+				if r.isSendMsgCall(pe) {
+					r.CheckT("C3", fn.Name+":delivers-under-lock", held[i]["Session.participantMutex"] != "", pe.Pos, path,
+						"a member is served while the session's participant lock is held (a participant that left must not be served from an earlier snapshot of the membership)")
+				}
+			}
+		}
 	}
 	// GetParticipantsByIDs: only ids present in this session
 	if fn := r.modelFunc("models.(*Session).GetParticipantsByIDs"); fn != nil {
